@@ -62,7 +62,7 @@ func (r *Rng) Intn(n int) int {
 
 func (r *Rng) Range(lo, hi int) int { return lo + r.Intn(hi-lo+1) }
 func (r *Rng) Chance(pct int) bool  { return r.Intn(100) < pct }
-func Pick[T any](r *Rng, xs []T) T   { return xs[r.Intn(len(xs))] }
+func Pick[T any](r *Rng, xs []T) T  { return xs[r.Intn(len(xs))] }
 
 // Mix derives the seed of run i of a property from VERIF_SEED so that results
 // do not depend on the number of workers.
@@ -89,12 +89,12 @@ type Val struct {
 	V []Val    `json:"v,omitempty"` // values of keys
 }
 
-func VInt(i int) Val             { return Val{T: "int", I: int64(i)} }
-func VStr(s string) Val          { return Val{T: "str", S: s} }
-func VBool(b bool) Val           { return Val{T: "bool", B: b} }
-func VFloat(f float64) Val       { return Val{T: "float", F: f} }
-func VNil() Val                  { return Val{T: "nil"} }
-func VArr(xs ...Val) Val         { return Val{T: "arr", A: xs} }
+func VInt(i int) Val               { return Val{T: "int", I: int64(i)} }
+func VStr(s string) Val            { return Val{T: "str", S: s} }
+func VBool(b bool) Val             { return Val{T: "bool", B: b} }
+func VFloat(f float64) Val         { return Val{T: "float", F: f} }
+func VNil() Val                    { return Val{T: "nil"} }
+func VArr(xs ...Val) Val           { return Val{T: "arr", A: xs} }
 func VMap(k []string, v []Val) Val { return Val{T: "map", K: k, V: v} }
 
 // Go builds a fresh native value.
@@ -248,15 +248,15 @@ type WriterFault struct {
 
 // Op is one call of the public API.
 type Op struct {
-	Kind string       `json:"kind"` // evalstr evalfile string response newtemplate register
-	Name string       `json:"name,omitempty"`
-	Src  string       `json:"src,omitempty"`
-	Data *Val         `json:"data,omitempty"`
-	Cfg  *Cfg         `json:"cfg,omitempty"`
-	NilCfg bool       `json:"nilcfg,omitempty"`
-	W    *WriterFault `json:"w,omitempty"`
-	Recv string       `json:"recv,omitempty"` // register: str arr int float bool
-	Fn   int          `json:"fn,omitempty"`   // register: id in the function catalogue
+	Kind   string       `json:"kind"` // evalstr evalfile string response newtemplate register
+	Name   string       `json:"name,omitempty"`
+	Src    string       `json:"src,omitempty"`
+	Data   *Val         `json:"data,omitempty"`
+	Cfg    *Cfg         `json:"cfg,omitempty"`
+	NilCfg bool         `json:"nilcfg,omitempty"`
+	W      *WriterFault `json:"w,omitempty"`
+	Recv   string       `json:"recv,omitempty"` // register: str arr int float bool
+	Fn     int          `json:"fn,omitempty"`   // register: id in the function catalogue
 }
 
 func (o Op) String() string {
@@ -342,9 +342,9 @@ func (w *SimWriter) Body() string { return strings.Join(w.Chunks, "") }
 // ---- the world: simulated disk + loaded template ------------------------------
 
 type World struct {
-	FS   *simrt.MemFS
-	Tpl  *textwire.Template
-	Rec  *Recorder
+	FS  *simrt.MemFS
+	Tpl *textwire.Template
+	Rec *Recorder
 }
 
 func errnoOf(s string) simrtErrno {
